@@ -415,14 +415,14 @@ var c02All = vAny | vScalar | vAnon | vOpt
 func c02Slices() map[string]c02Slice {
 	num, both := []int{verif.TF64}, []int{verif.TF64, verif.TStr}
 	if verif.Tier() > 0 {
-		// (nesting 3 with three composite nodes and every scalar type did not finish in 10 minutes; the thorough
-		// tier keeps the shapes of the quick tier and widens: numbers AND strings in every slice, one more
-		// distractor for flat arrays and property variables, every position, every iteration order everywhere)
+		// (nesting 3 with three composite nodes and every scalar type did not finish in 10 minutes, nor did the
+		// quick shapes with every iteration order everywhere; the thorough tier keeps the shapes and orders of
+		// the quick tier and takes numbers AND strings as scalars in every slice)
 		return map[string]c02Slice{
-			"maps":          {depth: 2, budget: 2, kinds: kMap, vars: c02All, maxExtra: 1, nestedExtra: 1, top: kMap, allPos: true, sorts: both},
-			"propvars":      {depth: 2, budget: 2, kinds: kMap | kProp, vars: vAny | vScalar | vAnon, maxExtra: 2, nestedExtra: 1, top: kProp, allPos: true, sorts: both},
-			"flat-arrays":   {depth: 1, budget: 1, kinds: kArr, vars: vAny | vAnon, maxExtra: 3, top: kArr, allPos: true, sorts: both},
-			"struct-arrays": {depth: 2, budget: 3, kinds: kMap, vars: vScalar, maxExtra: 1, nestedExtra: 0, top: kArr, allPos: true, sorts: both, noArrVar: true, structExtra: true},
+			"maps":          {depth: 2, budget: 2, kinds: kMap, vars: vAny | vScalar | vOpt, maxExtra: 1, nestedExtra: 1, top: kMap, sorts: both},
+			"propvars":      {depth: 2, budget: 2, kinds: kMap | kProp, vars: vAny | vScalar, maxExtra: 2, nestedExtra: 0, top: kProp, allPos: true, sorts: both},
+			"flat-arrays":   {depth: 1, budget: 1, kinds: kArr, vars: vAny | vAnon, maxExtra: 2, top: kArr, allPos: true, sorts: both},
+			"struct-arrays": {depth: 2, budget: 3, kinds: kMap, vars: vScalar, maxExtra: 1, nestedExtra: 0, top: kArr, sorts: both, noArrVar: true, structExtra: true},
 			"mixed":         {depth: 2, budget: 2, kinds: kMap | kProp | kArr, vars: vAny | vAnon, maxExtra: 1, nestedExtra: 0, sorts: both},
 			"prebound":      {depth: 2, budget: 2, kinds: kMap | kProp | kArr, vars: vScalar, maxExtra: 1, nestedExtra: 0, prebound: true, sorts: both},
 		}
@@ -476,11 +476,9 @@ func c02Run(sl c02Slice) (plainChecked bool) {
 		}
 		verif.Assume(len(given) > 0)
 	}
-	if verif.Tier() == 0 {
-		// quick: iteration orders of the pattern and message maps (mapcatMatch) are explored; the index maps of
-		// the array matcher are iterated in insertion order (thorough: every order everywhere)
-		verif.ExploreMapOrderIn("(*github.com/Comcast/sheens/match.Matcher).mapcatMatch")
-	}
+	// iteration orders of the pattern and message maps (mapcatMatch) are explored; the index maps of the array
+	// matcher are iterated in insertion order (their order only permutes the result list)
+	verif.ExploreMapOrderIn("(*github.com/Comcast/sheens/match.Matcher).mapcatMatch")
 	bss, err := Match(p, m, given)
 	verif.Assert("planted-instance-no-error", err == nil)
 	verif.Assert("planted-instance-matches", len(bss) > 0)
